@@ -2163,8 +2163,11 @@ def _oracle_op2_forms(op2, path, case):
                 byname.setdefault(b["name"], []).append(_bits(_op2_expected_matrix(b)))
             nm = mblocks[0]["name"]
             for names in (None, [nm.lower()], [nm[: max(1, len(nm) - 1)].lower() + "*"], [nm[: max(1, len(nm) - 1)]], ["*"], [nm + "x", nm]):
-                for which in (-1, 0, "all"):
-                    d = o2.rdop2mats(names=names, which=which)
+                for which in (-1, 0, 1, -2, "all"):
+                    try:
+                        d = o2.rdop2mats(names=names, which=which)
+                    except IndexError:
+                        d = "IndexError"
 
                     def ok(name):
                         if names is None:
@@ -2175,8 +2178,17 @@ def _oracle_op2_forms(op2, path, case):
                                 return True
                         return False
 
-                    want = {k: (v if which == "all" else [v[which]]) for k, v in byname.items() if ok(k)}
-                    got = {k: [_bits(x) for x in (v if which == "all" else [v])] for k, v in d.items()}
+                    sel = {k: v for k, v in byname.items() if ok(k)}
+                    if which != "all" and any(not (-len(v) <= which < len(v)) for v in sel.values()):
+                        want = "IndexError"  # Python indexing of the occurrences
+                    else:
+                        want = {k: (v if which == "all" else [v[which]]) for k, v in sel.items()}
+                    got = d if isinstance(d, str) else {k: [_bits(x) for x in (v if which == "all" else [v])] for k, v in d.items()}
+                    if isinstance(got, str) or isinstance(want, str):
+                        if got != want:
+                            return ("rdop2mats-names-which", {"names": names, "which": which, "returned": got if isinstance(got, str) else list(got)},
+                                    want if isinstance(want, str) else list(want), None)
+                        continue
                     if list(got) != list(want) or got != want:
                         return ("rdop2mats-names-which", {"names": names, "which": which, "returned": list(got)}, list(want), None)
     finally:
